@@ -135,6 +135,8 @@ pub struct Vm {
     module_loader: LoadModuleFn,
     printer: NativeFn,
     handling_exception: bool,
+    #[cfg(feature = "verif_hooks")]
+    verif: verif_vm::VerifVmState,
 }
 
 impl Vm {
@@ -160,6 +162,8 @@ impl Vm {
             printer: core::print,
             working_class_def: None,
             handling_exception: false,
+            #[cfg(feature = "verif_hooks")]
+            verif: Default::default(),
         };
         vm.init_heap_allocated_data();
         vm
@@ -540,6 +544,10 @@ impl Vm {
         debug_assert!(self.modules.len() == 1);
 
         loop {
+            #[cfg(feature = "verif_hooks")]
+            if let Some(error) = self.verif_step() {
+                return Err(error);
+            }
             if cfg!(feature = "debug_trace") {
                 println!("          {}", self.active_fiber().stack);
                 let offset = self.active_chunk.code_offset(self.ip);
@@ -1989,6 +1997,24 @@ mod string_store {
             entry.replace(value)
         }
 
+        #[cfg(feature = "verif_hooks")]
+        pub(super) fn verif_dump(&self) -> (Vec<Option<(u64, String, usize)>>, usize, usize) {
+            let slots = self
+                .entries
+                .iter()
+                .map(|e| {
+                    e.as_ref().map(|r| {
+                        (
+                            r.hash,
+                            r.as_str().to_owned(),
+                            r.as_gc().as_ptr() as *const u8 as usize,
+                        )
+                    })
+                })
+                .collect();
+            (slots, self.size, self.mask)
+        }
+
         fn adjust_capacity(&mut self, new_capacity: usize) {
             let mut new_entries: Vec<Option<Root<ObjString>>> = vec![None; new_capacity];
             let mask = new_capacity - 1;
@@ -2039,6 +2065,117 @@ mod string_store {
                 size: 0,
                 mask: INIT_CAPACITY - 1,
             }
+        }
+    }
+}
+
+/// Verification hooks (feature `verif_hooks`): instruction trace, fuel, active-fiber pointer monitor
+/// and wrappers that drive the string intern table directly. Observation and environment control
+/// only.
+#[cfg(feature = "verif_hooks")]
+pub mod verif_vm {
+    use super::string_store::ObjStringStore;
+    use super::*;
+
+    #[derive(Default)]
+    pub struct VerifVmState {
+        pub trace_enabled: bool,
+        /// (address of the first byte of the executing chunk's code, offset, stack height above the
+        /// frame's slot base)
+        pub trace: Vec<(usize, usize, usize)>,
+        pub trace_cap: usize,
+        pub fuel: Option<u64>,
+        pub monitor_enabled: bool,
+        pub monitor_checks: u64,
+        pub monitor_failures: u64,
+        pub steps: u64,
+    }
+
+    impl Vm {
+        pub fn verif_state(&mut self) -> &mut VerifVmState {
+            &mut self.verif
+        }
+
+        pub(super) fn verif_step(&mut self) -> Option<Error> {
+            self.verif.steps += 1;
+            if let Some(fuel) = self.verif.fuel.as_mut() {
+                if *fuel == 0 {
+                    self.verif.fuel = None;
+                    return Some(error!(ErrorKind::RuntimeError, "verif: fuel exhausted"));
+                }
+                *fuel -= 1;
+            }
+            if self.verif.monitor_enabled {
+                self.verif.monitor_checks += 1;
+                let safe = self
+                    .fiber
+                    .as_ref()
+                    .map(|f| (**f).as_ptr())
+                    .unwrap_or(ptr::null_mut());
+                if safe != self.unsafe_fiber {
+                    self.verif.monitor_failures += 1;
+                }
+            }
+            if self.verif.trace_enabled && self.verif.trace.len() < self.verif.trace_cap {
+                let (base, offset, height) = {
+                    let fiber = self.active_fiber();
+                    let slot_base = fiber.current_frame().map(|f| f.slot_base).unwrap_or(0);
+                    let code = &self.active_chunk.code;
+                    let base = code.as_ptr() as usize;
+                    (base, self.ip as usize - base, fiber.stack.len() - slot_base)
+                };
+                self.verif.trace.push((base, offset, height));
+            }
+            None
+        }
+
+        /// (slots, size, mask) of the interpreter's own intern table.
+        pub fn verif_string_store_dump(&self) -> (Vec<Option<(u64, String, usize)>>, usize, usize) {
+            self.string_store.verif_dump()
+        }
+
+        pub fn verif_range_cache_len(&self) -> usize {
+            self.range_cache.len()
+        }
+    }
+
+    /// A stand-alone intern table of the real type, driven with caller-chosen hashes.
+    pub struct VerifInternTable {
+        store: ObjStringStore,
+    }
+
+    impl VerifInternTable {
+        pub fn new() -> Self {
+            VerifInternTable {
+                store: ObjStringStore::new(),
+            }
+        }
+
+        /// `get` only: address of the interned string, if present.
+        pub fn probe(&self, hash: u64, text: &str) -> Option<usize> {
+            self.store
+                .get((hash, text))
+                .map(|r| r.as_gc().as_ptr() as *const u8 as usize)
+        }
+
+        /// Exactly what `Vm::new_gc_obj_string` does, with the hash supplied by the caller: `get`,
+        /// and on a miss allocate and `insert`. Returns (address, was_new).
+        pub fn intern(&mut self, vm: &mut Vm, hash: u64, text: &str) -> (usize, bool) {
+            if let Some(addr) = self.probe(hash, text) {
+                return (addr, false);
+            }
+            let string = Root::new(ObjString::new(
+                vm.string_class.as_ref().expect("Expected Root.").as_gc(),
+                text,
+                hash,
+            ));
+            let addr = string.as_gc().as_ptr() as *const u8 as usize;
+            self.store.insert(string);
+            (addr, true)
+        }
+
+        pub fn dump(&self) -> (Vec<Option<(u64, String, usize)>>, usize, usize) {
+            self.store.verif_dump()
         }
     }
 }
